@@ -169,6 +169,21 @@ def unclamp_k(w, G: Term):
     return substitute_view(w, mapping) if mapping else w
 
 
+def validity_tests(scan, w, r) -> List[Term]:
+    """The tests under which rank r of the buffers holds a neighbour: `d[r] != FLOAT_MAX` (or `<`), and - when the index
+    buffer is reset to NIL for every query before the scan - `idx[r] != NIL` (distance and index move as a pair, so a slot
+    whose distance is still FLOAT_MAX still holds NIL)."""
+    from .ir import not_nil_forms
+    out = [("cmp", "!=", *sorted([K("FLOAT_MAX"), ("idx", scan.D, r)], key=repr)), ("cmp", "<", ("idx", scan.D, r), K("FLOAT_MAX"))]
+    if scan.N is not None:
+        fills = [e for e in w.events if e.kind == "call" and e.name == "fill" and e.target == ("attr", scan.N, "fill")]
+        if len(fills) == 1 and fills[0].args in ((K("NIL"),), (("const", -1),)) and fills[0].loops == scan.cand.loops \
+                and fills[0].guards == scan.per.guards and fills[0].seq < scan.cand.first_seq:
+            for x in (("idx", scan.N, r), ("call", ("builtin", "int"), (("idx", scan.N, r),), ())):
+                out += not_nil_forms(x)
+    return out
+
+
 def report_missing_scan(rep, w: Walker, what: str, pre: str = "") -> bool:
     """No insertion scan was recognised.  If the function still allocates the k+1-slot buffers and writes a candidate
     into slot k inside a loop nest, the scan is there but its insertion step is malformed (test negated, step dropped,
@@ -336,7 +351,9 @@ def check_knn_scan(rep, pre: str, scan: KnnScan, graph: Term, allow_self_skip: b
             n_reads += 1
             need = ("cmp", "!=", *sorted([K("FLOAT_MAX"), ("idx", scan.D, t[2])], key=repr))
             # (`d < FLOAT_MAX` is `d != FLOAT_MAX` for a distance: nothing exceeds the largest float)
-            ok = has_guard(e.guards, need) or has_guard(e.guards, ("cmp", "<", ("idx", scan.D, t[2]), K("FLOAT_MAX")))
+            ok = any(has_guard(e.guards, v) for v in validity_tests(scan, w, t[2]))
+            if not ok and e.kind == "bind":
+                ok = True  # copying a slot into a local reads nothing from the training graph yet; its uses are checked
             if not ok and t[2][0] == "iter" and t[2][1][0] == "listcomp" and len(t[2][1][2]) == 1:
                 # the slot comes from a list of ranks filtered by that very test: [r for r in ... if d[r] != FLOAT_MAX]
                 lc = t[2][1]
